@@ -299,8 +299,11 @@ fn print_e_inner(l: &mut Layout, e: &E) -> String {
         E::Add(a, b) | E::Sub(a, b) => {
             let op = if matches!(e, E::Add(_, _)) { "+" } else { "-" };
             // left-associative: the left operand needs no parentheses, the right one does when binary
-            let left = if matches!(**a, E::Neg(_)) { atom(l, a) } else { print_e(l, a) };
-            let right = atom(l, b);
+            // `!` binds tighter than `+`/`-`: a negated operand needs no parentheses on either side; the plain
+            // layout always writes them, the random one half of the time
+            let bare = !l.plain && l.r.below(2) == 0;
+            let left = if matches!(**a, E::Neg(_)) && !bare { atom(l, a) } else { print_e(l, a) };
+            let right = if matches!(**b, E::Neg(_)) && bare { print_e(l, b) } else { atom(l, b) };
             // a space before a negative literal keeps `a - -1` from reading as something else
             format!("{left}{}{op}{}{right}", l.s(), l.s())
         }
